@@ -1,7 +1,7 @@
 CONSTANTS
   W = 32
   MaxReq = 3
-  MaxAmt = 3
+  MaxAmt = 2
   MaxBlocks = 2
   CodeShareRule = FALSE
 VIEW View
